@@ -28,7 +28,7 @@ for cfg in ("all", "default", "checkpoint", "futures"):
         if f.kind in ("Fn", "AssocFn"):
             b = f.body
             from lint.normalize import _is_tiny
-            fns[k] = dict(sig=f.j.get("sig", ""), tiny=bool(_is_tiny(f.j)), params=[[b.locals[l].get("name") or "", b.locals[l]["ty"]] for l in range(1, b.arg_count + 1)])
+            fns[k] = dict(sig=f.j.get("sig", ""), tiny=bool(_is_tiny(f.j)), fp=fingerprint(f), params=[[b.locals[l].get("name") or "", b.locals[l]["ty"]] for l in range(1, b.arg_count + 1)])
     for k, f in p.fns.items():
         if f.kind == "Closure":
             closures[k] = fingerprint(f)
